@@ -113,6 +113,18 @@ def seeds(st):
                                  'inventories': {'VCPU': INV_JSON(4, 0), 'DISK_GB': INV_JSON(30, 0)}}},
             'allocations': {U('c1'): dict(alloc, consumer_generation=1,
                                           allocations={p1: {'resources': {'VCPU': 1}}, p2: {'resources': {'DISK_GB': 5}}})}}),
+        # the same operations for consumers that do not exist yet: a refused request must not leave them behind
+        ('POST', '/reshaper', [], {
+            'inventories': {p2: {'resource_provider_generation': g('p2'),
+                                 'inventories': {'VCPU': INV_JSON(4, 0), 'DISK_GB': INV_JSON(30, 0)}}},
+            'allocations': {U('c7'): dict(alloc, consumer_generation=None,
+                                          allocations={p2: {'resources': {'DISK_GB': 5}}})}}),
+        ('POST', '/allocations', [], {U('c7'): dict(alloc, consumer_generation=None,
+                                                    allocations={p1: {'resources': {'VCPU': 1}}}),
+                                      U('c8'): dict(alloc, consumer_generation=None,
+                                                    allocations={p2: {'resources': {'DISK_GB': 1}}})}),
+        ('PUT', '/allocations/' + U('c7'), [], dict(alloc, consumer_generation=None,
+                                                    allocations={p1: {'resources': {'VCPU': 1}}})),
     ]
 
 
@@ -205,8 +217,18 @@ def mutate(rnd, seed):
         if k == 'body' and isinstance(body, (dict, list)):
             ps = _paths(body)
             p = rnd.choice(ps)
-            op = rnd.choice(['replace', 'replace', 'replace', 'delete', 'addkey', 'dupe_rename', 'cross'])
+            op = rnd.choice(['replace', 'replace', 'replace', 'delete', 'addkey', 'dupe_rename', 'cross', 'unknown_id'])
             try:
+                if op == 'unknown_id':
+                    # a well-formed name of something that does not exist, as key or value
+                    txt = json.dumps(body)
+                    ids = sorted(set(re.findall(r'[0-9a-f]{8}-[0-9a-f]{4}-[0-9a-f]{4}-[0-9a-f]{4}-[0-9a-f]{12}', txt)))
+                    words = sorted(set(re.findall(r'"((?:CUSTOM_|HW_)?[A-Z][A-Z0-9_]{2,})"', txt)))
+                    if ids and (not words or rnd.random() < 0.7):
+                        body = json.loads(txt.replace(rnd.choice(ids), U('p11'), 1))
+                    elif words:
+                        body = json.loads(txt.replace('"%s"' % rnd.choice(words), '"CUSTOM_NOSUCH"', 1))
+                    op = 'done'
                 if op == 'cross':
                     # an identifier of the request itself where another one is expected
                     # (a provider as its own parent, a consumer as a provider, ...)
